@@ -399,10 +399,46 @@ def holder_probes(rep, thorough):
     return events
 
 
+def registry_events():
+    """the IntEnum tables defined in the repository, by class name, for CodeTable.tla"""
+    import enum
+    import importlib
+    import inspect
+    import pkgutil
+    import cryptoparser
+    events, seen = [], set()
+    for m in pkgutil.walk_packages(cryptoparser.__path__, 'cryptoparser.'):
+        try:
+            mod = importlib.import_module(m.name)
+        except Exception:  # pylint: disable=broad-except
+            continue
+        for n, c in inspect.getmembers(mod, inspect.isclass):
+            if issubclass(c, enum.IntEnum) and c.__module__ == mod.__name__ and c not in seen:
+                seen.add(c)
+                events.append({'ev': 'registry', 'enum': n, 'module': mod.__name__.replace('cryptoparser.', ''),
+                               'table': [{'name': k, 'code': int(v)} for k, v in c.__members__.items() if abs(int(v)) < 2 ** 31]})
+            elif issubclass(c, enum.Enum) and c.__module__ == mod.__name__ and c not in seen:
+                seen.add(c)
+                table = []
+                for k, v in c.__members__.items():
+                    text = getattr(v.value, 'code', v.value)
+                    if isinstance(text, str):
+                        table.append({'name': k, 'text': text})
+                if table:
+                    events.append({'ev': 'strregistry', 'enum': n, 'module': mod.__name__.replace('cryptoparser.', ''), 'table': table})
+    return events
+
+
 def run(rep):
     thorough = rep.tier == 'thorough'
     corpus.import_all()
     events = numeric_spaces(rep, thorough) + cross_width_histories(rep) + record_level(rep) + int_tables() + string_enums(rep)
+    reg = registry_events()
+    rep.extra['repository_enum_tables_checked_against_documents'] = {e['enum']: len(e['table']) for e in reg}
+    for e in reg:
+        for t in e['table']:
+            rep.case('registry|%s|%s' % (e['enum'], t['name']))
+    events += reg
     hp = holder_probes(rep, thorough)
     rep.extra['holder_field_probes'] = len(hp)
     for e in hp:
@@ -426,6 +462,16 @@ def run(rep):
             continue
         code = tup[3] if len(tup) > 3 else 0
         what = e.get('enum')
+        if e['ev'] == 'strregistry':
+            t = e['table'][code - 1]
+            rep.violation('%s|%s|%s' % (what, clause, t['name']), '%s.%s is written %r, the protocol document spells it differently' % (what, t['name'], t['text']),
+                          {'enum': what, 'module': e['module'], 'member': t['name'], 'text': t['text']})
+            continue
+        if e['ev'] == 'registry':
+            t = e['table'][code - 1]
+            rep.violation('%s|%s|%s' % (what, clause, t['name']), '%s.%s = %d differs from the number the protocol document assigns' % (what, t['name'], t['code']),
+                          {'enum': what, 'module': e['module'], 'member': t['name'], 'code': t['code']})
+            continue
         if e['ev'] == 'space':
             where = e['container'] if clause.startswith('list') or 'dropped' in clause else 'decode'
             detail = {'enum': what, 'code': code, 'container': e['container'],
